@@ -93,6 +93,14 @@ Theorem C18_refuted_private_slots :
   spec_items pslots_obj = [].
 Proof. vm_compute. repeat split. Qed.
 
+(* the repair is narrow: an object without __dict__ whose class does not declare __slots__ (the shape of int,
+   float, None ... reaching the vars fallback) still raises TypeError in the repaired code, and is outside the guard *)
+Example C18_nodict_noslots_still_raises :
+  guard (VObj vars_cls [] None []) = false /\
+  iteritems repaired (VObj vars_cls [] None []) = (Raise EType, VObj vars_cls [] None []) /\
+  iteritems repaired pslots_obj = (Ok [], pslots_obj).
+Proof. vm_compute. repeat split. Qed.
+
 Theorem C18_full_pinned_false : ~ C18_full pinned.
 Proof.
   intros H. destruct (H nt_ab eq_refl) as [Hi _]. vm_compute in Hi. discriminate Hi.
